@@ -725,8 +725,8 @@ func units(tier string) []kase {
 	// stops with its hard error "replay-diverged" (a level-1 execution, run again as the prefix of a level-2
 	// schedule, offers fewer alternatives at the second position): executions of the same schedule are not
 	// reproducible point for point there, so nothing explored below them could be trusted. Found when the
-	// thorough tier was run again at the end of the second session; the source (suspected: the order of a
-	// sync.Map.Range around accessor mutexes, which became scheduling points with 87958ab) is not owned yet.
+	// thorough tier was run again at the end of the second session; the source is not identified yet (candidates: state that
+	// survives between executions in one worker; the accessor mutexes became scheduling points with 87958ab).
 	for i := range out {
 		if out[i].Part == "schedules" && out[i].Doc != "D1" && out[i].Bound > 1 {
 			out[i].Bound = 1
